@@ -73,7 +73,7 @@ def relations(cases, impl):
     REL_STATS.clear(); REL_STATS.update(compared_with_reference=0, skipped_occurs_check=0, mgu_compared=0, symmetric_pairs_compared=0)
     res_of = {case: res for (case, tag), (out, res) in zip(cases, impl)}
     for (case, tag), (out, res) in zip(cases, impl):
-        if tag == "prior": continue
+        if tag == "prior" or not case.startswith("(useqr "): continue   # corpus lines of other shapes: model-vs-implementation only
         prior, (a, b) = _prior_and_pair(case)
         try:
             s = {}
